@@ -125,8 +125,8 @@ def r1_operand_roles(F, R):
                 R.bad(f"{meth}|{vname}|missing", f"`{meth}` has no arm for {vname}", loc(m))
 
 
-@rule("C02", "C02.k.gen-kill-read-the-operand-table", floor=2)
-@rule("C08", "R1.c.gen-kill-read-the-operand-table", floor=2)
+@rule("C02", "C02.k.gen-kill-read-the-operand-table", floor=1)
+@rule("C08", "R1.c.gen-kill-read-the-operand-table", floor=1)
 def r1c_gen_kill(F, R):
     """the use and definition sets of the dataflow analyses (`gen_reg`, `kill_reg`) are derived from the operand-role table (`reads_from` / `writes_to`); if one of them enumerates node kinds itself, every kind must give exactly the payload's rs1,rs2 (rd) - a kind left to a wildcard (`jalr`) reads nothing for the analyses while the table says it reads rs1"""
     variants = {v["name"]: v for v in F.adt(PNODE)["variants"]}
